@@ -173,6 +173,40 @@ theorem years_inside_year (y : Nat) :
     show ¬ (31 : Nat) = 0 by omega, if_false]
   rcases daysInYear_cases (y : Int) with e | e <;> rw [e] at hl ⊢ <;> constructor <;> simp [cum] <;> omega
 
+/-- `DateNodes.Minimum()` returns a date of the list that no date of the list is below on the
+    Years scale (and `none` only for the empty list) -/
+theorem minimum_is_min (ds : List Date) (k : Nat) (h : minimumIdx ds = some k) :
+    ∃ x, ds[k]? = some x ∧ ∀ d ∈ ds, ¬ d.yearsLt x := by
+  unfold minimumIdx at h
+  cases hg : minimumIdx.go ds 0 none with
+  | none => rw [hg] at h; simp at h
+  | some r =>
+    rw [hg] at h
+    simp only [Option.map_some, Option.some.injEq] at h
+    obtain ⟨k', x⟩ := r
+    simp only at h; subst h
+    have := minimum_go_spec [] ds none k' x rfl (by simpa using hg)
+    exact ⟨x, by simpa using this.1, by simpa using this.2⟩
+
+/-- `DateNodes.Maximum()` returns a date of the list that is below no date of the list -/
+theorem maximum_is_max (ds : List Date) (k : Nat) (h : maximumIdx ds = some k) :
+    ∃ x, ds[k]? = some x ∧ ∀ d ∈ ds, ¬ x.yearsLt d := by
+  unfold maximumIdx at h
+  cases hg : maximumIdx.go ds 0 none with
+  | none => rw [hg] at h; simp at h
+  | some r =>
+    rw [hg] at h
+    simp only [Option.map_some, Option.some.injEq] at h
+    obtain ⟨k', x⟩ := r
+    simp only at h; subst h
+    have := maximum_go_spec [] ds none k' x rfl (by simpa using hg)
+    exact ⟨x, by simpa using this.1, by simpa using this.2⟩
+
+/-- the Years order is a strict order (what sorting and min/max rely on) -/
+theorem years_order_strict (a b c : Date) :
+    ¬ a.yearsLt a ∧ (a.yearsLt b → b.yearsLt c → a.yearsLt c) :=
+  ⟨yearsLt_irrefl a, fun h1 h2 => yearsLt_trans h1 h2⟩
+
 /-! Non-vacuity (tests on literals, not the property): a leap February, a century year. -/
 example : (⟨0, 2, 2000⟩ : Date).WF ∧ (⟨0, 2, 2000⟩ : Date).periodDays = 29 := by decide
 example : (⟨0, 2, 1900⟩ : Date).WF ∧ (⟨0, 2, 1900⟩ : Date).periodDays = 28 := by decide
